@@ -1,10 +1,12 @@
 import Driver.Buddy
 import Driver.Key
+import Driver.Table
 /-! Line-protocol driver. First token of each line selects the model. -/
 open Redb.Driver
 
 structure DState where
   buddy : Option Redb.Buddy.Buddy := none
+  tbl : TblState := {}
 
 def dispatch (st : DState) (line : String) : DState × String :=
   let (req, obs) := splitLine line
@@ -13,6 +15,9 @@ def dispatch (st : DState) (line : String) : DState × String :=
     let (b, out) := buddyStep st.buddy rest obs
     ({ st with buddy := b }, out)
   | "key" :: rest => (st, keyStep rest obs)
+  | "tbl" :: rest =>
+    let (t, out) := tblStep st.tbl rest obs
+    ({ st with tbl := t }, out)
   | _ => (st, "bad-op")
 
 partial def loop (h : IO.FS.Stream) (out : IO.FS.Stream) (st : DState) : IO Unit := do
